@@ -14,6 +14,7 @@ def V(id, props, *edits):
 
 RB = "lerax/buffer/rollout.py"
 ONP = "lerax/algorithm/on_policy.py"
+OFP = "lerax/algorithm/off_policy.py"
 PPO = "lerax/algorithm/ppo.py"
 A2C = "lerax/algorithm/a2c.py"
 RF = "lerax/algorithm/reinforce.py"
@@ -28,6 +29,16 @@ ENTRIES = [
     M("C03-noreverse", "C03", "C03.1", (RB, "(deltas, discounts), reverse=True", "(deltas, discounts)")),
     M("C03-returns-eq-adv", "C03", "C03.4", (RB, "returns = advantages + self.values", "returns = advantages")),
     M("C03-swap-fields", "C03", "C03", (RB, "self, (returns, advantages)", "self, (advantages, returns)")),
+    M("C03-x-dones-termination-only", "C03", "C03.8", (ONP, "                dones=done,", "                dones=termination,")),
+    M("C03-x-dones-truncation-only", "C03", "C03.8", (ONP, "                dones=done,", "                dones=truncation,")),
+    M("C03-x-values-second-call", "C03", "C03.8", (ONP, "                values=value,", "                values=policy.value(state.policy_state, observation)[1] * 0.5,")),
+    V("C03-x-v-dones-flipped", "C03", (ONP, "        done = termination | truncation", "        done = truncation | termination")),
+    M("C08-x-store-clipped", "C08", "C08.8", (ONP, "                actions=action,", "                actions=clipped_action,")),
+    M("C08-x-logprob-second-call", "C08", "C08.8", (ONP, "                log_probs=log_prob,", "                log_probs=policy.action_and_value(state.policy_state, observation, key=transition_key, action_mask=action_mask)[3],")),
+    M("C07-x-timeout-raw", "C07", "C07.6", (OFP, "        timeout = truncation & ~termination", "        timeout = truncation")),
+    M("C07-x-done-term-only-timeout-any", "C07", "C07.6", (OFP, "        timeout = truncation & ~termination", "        timeout = truncation | termination")),
+    V("C07-x-v-timeout-spelled", "C07", (OFP, "        timeout = truncation & ~termination", "        timeout = jnp.logical_and(truncation, jnp.logical_not(termination))")),
+    V("C07-x-v-timeout-done-minus-term", "C07", (OFP, "        timeout = truncation & ~termination", "        timeout = done & ~termination")),
     M("C03-swap-gamma-lambda", "C03", "C03.6", (ONP, "next_value, self.gae_lambda, self.gamma", "next_value, self.gamma, self.gae_lambda")),
     M("C03-init-carry", "C03", "C03.1", (RB, "scan_fn, jnp.array(0.0), (deltas", "scan_fn, last_value, (deltas")),
     M("C03-lambda-in-delta", "C03", "C03", (RB, "deltas = self.rewards + gamma * next_values", "deltas = self.rewards + gamma * gae_lambda * next_values")),
@@ -86,7 +97,6 @@ ENTRIES = [
     V("C07-v-or-order", "C07", (SAC, "(~done | timeout)", "(timeout | ~done)")),
 ]
 
-OFP = "lerax/algorithm/off_policy.py"
 RPB = "lerax/buffer/replay.py"
 BB = "lerax/buffer/base_buffer.py"
 MLP = "lerax/policy/actor_critic/mlp.py"
@@ -148,6 +158,8 @@ ENTRIES += [
     M("C06-other-idx", "C06", "C06.1", (RPB, "dones = self.dones.at[idx].set(done)", "dones = self.dones.at[idx - 1].set(done)")),
     M("C06-take-axis1", "C06", "C06.3", (RPB, "return jnp.take(x, batch_indices, axis=0)", "return jnp.take(x, batch_indices, axis=1)")),
     M("C06-flatten-target-axes", ["C06", "C09"], ["C06.4", "C09.3"], (BB, "moved = jnp.moveaxis(x, axes, target_axes)", "moved = jnp.moveaxis(x, target_axes, axes)")),
+    M("C06-uniform-tile", "C06", "C06", (RPB, '        if current_size.ndim == 0:\n            valid_mask = jnp.arange(self.size) < current_size\n        else:\n            valid_mask = (jnp.arange(self.size) < current_size[..., None]).reshape(-1)\n', "        valid_mask = (jnp.arange(total) % self.size) < jnp.tile(jnp.reshape(current_size, (-1,)), self.size)\n")),
+    V("C06-v-uniform-mask", "C06", (RPB, '        if current_size.ndim == 0:\n            valid_mask = jnp.arange(self.size) < current_size\n        else:\n            valid_mask = (jnp.arange(self.size) < current_size[..., None]).reshape(-1)\n', "        valid_mask = (jnp.arange(self.size) < current_size[..., None]).reshape(-1)\n")),
     V("C06-v-idx-temp", "C06", (RPB, "idx = self.position % self.size", "cap = self.size\n        idx = self.position % cap")),
     V("C06-v-mask-flip", "C06", (RPB, "valid_mask = jnp.arange(self.size) < current_size\n", "valid_mask = current_size > jnp.arange(self.size)\n")),
     # ---------------------------------------------------------------- C09
@@ -271,6 +283,19 @@ STU = "lerax/space/tuple.py"
 
 ENTRIES += [
     # ---------------------------------------------------------------- C14
+    M("C14-dict-contains-positional", "C14", "C14.2", (SDI, "[space.contains(x[key]) for key, space in self.spaces.items()]", "[space.contains(x_i) for space, x_i in zip(self.spaces.values(), x.values())]")),
+    M("C14-dict-flatten-positional", "C14", "C14.8", (SDI, "space.flatten_sample(sample[key]) for key, space in self.spaces.items()", "space.flatten_sample(v) for space, v in zip(self.spaces.values(), sample.values())")),
+    M("C14-dict-flatten-sample-order", "C14", "C14.8", (SDI, "space.flatten_sample(sample[key]) for key, space in self.spaces.items()", "self.spaces[key].flatten_sample(v) for key, v in sample.items()")),
+    M("C14-dict-sample-shifted-keys", "C14", "C14.6", (SDI, "                    self.spaces.keys(),\n                    self.spaces.values(),", "                    self.spaces.keys(),\n                    reversed(self.spaces.values()),")),
+    M("C14-dict-canonical-plain-dict", "C14", "C14.7", (SDI, "        return OrderedDict(\n            {key: space.canonical() for key, space in self.spaces.items()}\n        )", "        return {key: space.canonical() for key, space in self.spaces.items()}")),
+    M("C14-tuple-contains-reversed", "C14", "C14.2", (STU, "[space.contains(x_i) for space, x_i in zip(self.spaces, x)]", "[space.contains(x_i) for space, x_i in zip(self.spaces, reversed(x))]")),
+    M("C14-tuple-canonical-list", "C14", "C14.7", (STU, "return tuple(space.canonical() for space in self.spaces)", "return [space.canonical() for space in self.spaces]")),
+    M("C14-tuple-flat-size-skip-first", "C14", "C14.8", (STU, "return sum(space.flat_size for space in self.spaces)", "return sum(space.flat_size for space in self.spaces[1:])")),
+    V("C14-v-dict-contains-by-key", "C14", (SDI, "[space.contains(x[key]) for key, space in self.spaces.items()]", "[self.spaces[key].contains(x[key]) for key in self.spaces]")),
+    V("C14-v-dict-contains-by-x-key", "C14", (SDI, "[space.contains(x[key]) for key, space in self.spaces.items()]", "[self.spaces[key].contains(value) for key, value in x.items()]")),
+    V("C14-v-tuple-contains-enumerate", "C14", (STU, "[space.contains(x_i) for space, x_i in zip(self.spaces, x)]", "[space.contains(x[i]) for i, space in enumerate(self.spaces)]")),
+    V("C14-v-tuple-contains-range", "C14", (STU, "[space.contains(x_i) for space, x_i in zip(self.spaces, x)]", "[self.spaces[i].contains(x[i]) for i in range(len(self.spaces))]")),
+    V("C14-v-dict-flat-size-items", "C14", (SDI, "return sum(space.flat_size for space in self.spaces.values())", "return sum(space.flat_size for _, space in self.spaces.items())")),
     M("C14-md-no-lower", "C14", "C14.2", (SMD, "return jnp.all((x >= 0) & (x < jnp.asarray(self.nvec)))", "return jnp.all(x < jnp.asarray(self.nvec))")),
     M("C14-mb-axis0", "C14", "C14.1", (SMB, "return jnp.all((x == 0) | (x == 1))", "return jnp.all((x == 0) | (x == 1), axis=0)")),
     M("C14-tuple-prefix", "C14", "C14.4", (STU, "return len(self.spaces) == len(other.spaces) and all(", "return all(")),
